@@ -167,6 +167,7 @@ EXPREFS = [('expref', '&@'), ('expref', '&a'), ('expref', '&b'), ('expref', '&le
 ANY = [None, True, 0, 'a', [], [1], ['a'], [1, 'a'], {}, {'a': 1}, ('expref', '&a')]
 
 def universes(A):
+    B = max(A, 3)          # by-functions, sort, max, min need three elements (an extreme in the middle, a tie after the extreme)
     return {
      'abs': [NUMS], 'ceil': [NUMS + [2.5, -2.5, 1e300]], 'floor': [NUMS + [2.5, -2.5, 1e300]],
      'avg': [arrays_of([1, 2, 1.5, -1], A)], 'sum': [arrays_of([1, 2, 1.5, -1], A)],
@@ -175,13 +176,13 @@ def universes(A):
      'join': [['', ',', 'é'], arrays_of(['a', 'b', '', 'é'], A)],
      'keys': [OBJS], 'values': [OBJS], 'length': [STRS + arrays_of([1, None], 2) + OBJS],
      'map': [EXPREFS, arrays_of([None, 1, 'a', [1, 2], {'a': 1}, {'a': None, 'b': 2}], min(A, 2))],
-     'max': [arrays_of([1, 2, 1.0, -1.5], A) + arrays_of(['a', 'b', 'é', 'ab'], A) + arrays_of([0.30000000000000004, 0.3, 1], A)], 'min': [arrays_of([1, 2, 1.0, -1.5], A) + arrays_of(['a', 'b', 'é', 'ab'], A) + arrays_of([0.30000000000000004, 0.3, 1], A)],
-     'max_by': [arrays_of([{'a': 1}, {'a': 2}, {'a': 2, 'b': 0}, {'a': 'x'}, {'a': 'é'}, {'b': 1}, 1, 'ab'], A), EXPREFS],
-     'min_by': [arrays_of([{'a': 1}, {'a': 2}, {'a': 1, 'b': 0}, {'a': 'x'}, {'a': 'é'}, {'b': 1}, 1, 'ab'], A), EXPREFS],
-     'sort_by': [arrays_of([{'a': 1}, {'a': 2}, {'a': 1, 'b': 0}, {'a': 1.0, 'b': 1}, {'a': 'x'}, {'a': 'é'}, {'b': 1}, 2, 'ab', {'a': 0.30000000000000004}, {'a': 0.3}], A), EXPREFS],
+     'max': [arrays_of([1, 2, 1.0, -1.5], B) + arrays_of(['a', 'b', 'é', 'ab'], B) + arrays_of([0.30000000000000004, 0.3, 1], B)], 'min': [arrays_of([1, 2, 1.0, -1.5], B) + arrays_of(['a', 'b', 'é', 'ab'], B) + arrays_of([0.30000000000000004, 0.3, 1], B)],
+     'max_by': [arrays_of([{'a': 1}, {'a': 2}, {'a': 3}, {'a': 2, 'b': 0}, {'a': 'x'}, {'a': 'é'}, {'b': 1}, 'ab'], B) if A >= 3 else arrays_of([{'a': 1}, {'a': 2}, {'a': 3}, {'a': 3, 'b': 0}, {'a': 'x'}, {'b': 1}], B), EXPREFS],
+     'min_by': [arrays_of([{'a': 1}, {'a': 2}, {'a': 3}, {'a': 1, 'b': 0}, {'a': 'x'}, {'a': 'é'}, {'b': 1}, 'ab'], B) if A >= 3 else arrays_of([{'a': 1}, {'a': 2}, {'a': 3}, {'a': 1, 'b': 0}, {'a': 'x'}, {'b': 1}], B), EXPREFS],
+     'sort_by': [arrays_of([{'a': 1}, {'a': 2}, {'a': 1, 'b': 0}, {'a': 1.0, 'b': 1}, {'a': 'x'}, {'a': 'é'}, {'b': 1}, 2, 'ab', {'a': 0.30000000000000004}, {'a': 0.3}], B) if A >= 3 else arrays_of([{'a': 1}, {'a': 2}, {'a': 1, 'b': 0}, {'a': 'x'}, {'a': 0.30000000000000004}, {'a': 0.3}], B), EXPREFS],
      'merge': [OBJS, OBJS, OBJS[:4]], 'not_null': [ANY[:10], [None, 1, 'a', []], [None, 2]],
      'reverse': [STRS + arrays_of([1, 'a', None, [1]], A)],
-     'sort': [arrays_of([1, 2, 1.0, -1.5, 10], A) + arrays_of(['a', 'b', 'é', 'ab', 'B'], A) + arrays_of([0.30000000000000004, 0.3, 1], A)],
+     'sort': [arrays_of([1, 2, 1.0, -1.5, 10], B) + arrays_of(['a', 'b', 'é', 'ab', 'B'], B) + arrays_of([0.30000000000000004, 0.3, 1], B)],
      'to_array': [ANY[:10]], 'to_number': [NUMS + NUMSTR + [None, True, [], {}, [1]]], 'to_string': [[None, True, False, 1, -1, 1.5, 'a', 'é"', [], [1, 'a', None], {}, {'b': 1, 'a': [True]}]],
      'type': [ANY],
     }
